@@ -53,6 +53,7 @@ type cliOpts struct {
 	SentinelErrs  bool  `json:"sentinel_errs,omitempty"` // the injected close errors wrap net.ErrClosed / ErrAgentClosed instead of being plain errors
 	ClockOffset   int64 `json:"clock_offset,omitempty"`  // ns added to the start of the virtual clock (deadlines then fall off every round number)
 	CloseTimeout  bool  `json:"close_timeout,omitempty"` // with ConnCloseErr: the connection's Close error is a net.Error time-out
+	ClockPoints   bool  `json:"clock_points,omitempty"`  // Clock.Now is a scheduling point
 	StaleFields   bool  `json:"stale_fields,omitempty"`  // the caller's message has Type / Length fields that are out of step with Raw when Start is called
 	MaxAttempts   int   `json:"-"`
 }
@@ -262,9 +263,19 @@ func (w *cliWorld) rec(r obsRec) int {
 
 // ---- doubles ----
 
-type vClock struct{ now time.Time }
+type vClock struct {
+	now    time.Time
+	points bool
+}
 
-func (c *vClock) Now() time.Time { return c.now }
+// Now: reading the clock is a call into the environment (a user-supplied Clock may take its time): with
+// cliOpts.ClockPoints the other threads may run while a thread is in it.
+func (c *vClock) Now() time.Time {
+	if c.points {
+		sched.Point("clock.Now", nil)
+	}
+	return c.now
+}
 
 type vConn struct {
 	w         *cliWorld
@@ -939,7 +950,7 @@ func (w *cliWorld) do(ev cliEv, quiesce bool) {
 func runScenario(sc cliScenario) (*sched.Result, *cliWorld) {
 	w := &cliWorld{sc: sc, msgs: map[int]*stun.Message{}}
 	res := sched.Run(sched.Config{Prefix: sc.Prefix, PoolFanout: sc.Opts.PoolFanout, MapFanout: true, MaxSteps: 50000}, func() {
-		w.clock = &vClock{now: cliT0.Add(time.Duration(sc.Opts.ClockOffset))}
+		w.clock = &vClock{now: cliT0.Add(time.Duration(sc.Opts.ClockOffset)), points: sc.Opts.ClockPoints}
 		w.conn = &vConn{w: w, written: map[[12]byte]bool{}, idleTimeo: sc.Opts.NoConnClose}
 		w.coll = &vCollector{w: w}
 		w.agent = &vAgent{w: w, a: stun.NewAgent(nil), deadlines: map[[12]byte]time.Time{}}
